@@ -87,7 +87,7 @@ def handle (j : Json) : Except String Json := do
       let (_, outs) := ops.foldl (fun (acc : Store × List Json) op =>
         let o := stepO sch acc.1 op
         (o.store, Json.mkObj [("err", match o.err with | none => Json.null | some e => Json.str (errName e)),
-                               ("dirty", toJson o.dirty), ("inv", toJson (checkInv sch o.store)),
+                               ("inv", toJson (checkInv sch o.store)),
                                ("objs", dump sch o.store)] :: acc.2)) (Store.empty, [])
       pure (Json.mkObj [("steps", .arr outs.reverse.toArray)])
   | _ => throw s!"unknown op {op}"
